@@ -606,6 +606,19 @@ def drive_points(mon: Monitor, rng: random.Random, count: int) -> None:
         xy = gen.array_form(np.array(xy, dtype="float64"), form)
         if int(nprng.integers(0, 6)) == 0 and np.isfinite(xy).all() and np.abs(xy).max() < 1e6:
             xy = xy.astype("float32")
+        elif int(nprng.integers(0, 4)) == 0 and np.isfinite(xy).all():
+            # pixel indices as they come out of np.nonzero / image libraries: small integer types, signed and unsigned (padding and alignment arithmetic must not wrap in them)
+            it = ["uint8", "uint16", "uint32", "uint64", "int8", "int16", "int32"][int(nprng.integers(0, 7))]
+            info = np.iinfo(it)
+            fl = np.floor(xy)
+            if fl.min() >= info.min and fl.max() <= info.max:
+                xy = fl.astype(it)
+                mon.obs["point_arrays_of_small_integer_type"] += 1
+        elif int(nprng.integers(0, 12)) == 0 and np.isfinite(xy).all():
+            # single precision coordinates beyond 2**24 in a correspondingly wide image
+            big = int(nprng.choice([2**24 + 4096, 2**25 + 10, 3 * 2**24]))
+            xy = (np.abs(xy) % 1000 + [big, 0]).astype("float32")
+            nx = big + 2000
         if int(nprng.integers(0, 4)) == 0:
             ny, nx = np.int64(ny), np.int32(nx)
         try:
